@@ -130,6 +130,8 @@ def run_property(pid, tier, seed, relock=False, verbose=False):
     qs = [q for q in P['functions'] if q in db.contracts]
     budget_env = {'VK_BUDGET': '300' if tier == 'quick' else '3000'}
     try:
+        if not qs:
+            raise StopIteration
         p = native([os.path.join(HERE, 'vk', 'concrete.py'), 'search', str(seed)] + qs, env_extra=budget_env)
         out = last_json(p.stdout) or {}
         for q, v in out.items():
@@ -143,6 +145,8 @@ def run_property(pid, tier, seed, relock=False, verbose=False):
         bounded['rule'] = ('contract text of each function under contract evaluated on the real function over its small-input domain '
                            '(matrices p<=2 over {0,1,-1,2} exhaustively + seeded random p<=4, node indices -1..4, subsets of 0..3); '
                            'non-trivial = some matrix argument has a non-zero entry; distinct by argument values')
+    except StopIteration:
+        pass
     except Exception as e:     # noqa: BLE001
         print('NOTE concrete contract search crashed: %r' % (e,))
     for mod in P.get('bounded', []):
